@@ -283,6 +283,36 @@ pub fn gen(seed: u64, thorough: bool, malformed: bool) {
             // keys must be valid UTF-8 to be expressible as &str paths
             out.line(&format!("{} {} {}", name, hex(&doc), path_str(&p)));
         }
+        if i % 3 == 1 {
+            // keys that are long string bodies with escapes (the key decoder parse_string_raw and
+            // its 32-byte blocks), looked up past them; in the malformed stream a control
+            // character is planted shortly before a backslash
+            let lcfg = GenCfg { long_strings: true, ..GenCfg::default() };
+            let mut w = b"{".to_vec();
+            for kx in 0..(1 + r.below(3)) {
+                let mut body = Vec::new();
+                while body.len() < 8 + r.below(60) {
+                    gen_string_body(&mut r, &lcfg, &mut body);
+                }
+                w.push(b'"');
+                w.extend_from_slice(format!("k{}", kx).as_bytes());
+                w.extend_from_slice(&body);
+                w.extend_from_slice(b"\":");
+                gen_value(&mut r, &cfg, 2, &mut w);
+                w.push(b',');
+            }
+            w.extend_from_slice(b"\"target\":[true, 2]}");
+            let tp = vec![PointerNode::Key("target".into()), PointerNode::Index(r.below(2))];
+            if malformed {
+                let bs: Vec<usize> = w.iter().enumerate().filter(|(_, b)| **b == b'\\').map(|(i, _)| i).collect();
+                if !bs.is_empty() {
+                    let p = bs[r.below(bs.len())];
+                    let at = p.saturating_sub(1 + r.below(31)).max(1);
+                    w.insert(at, *r.pick(b"\x00\x01\x1f\n\t"));
+                }
+            }
+            out.line(&format!("{} {} {}", name, hex(&w), path_str(&tp)));
+        }
         if malformed && !d.is_empty() {
             // every prefix (sampled) with the deepest path
             let cut = r.below(d.len());
